@@ -87,9 +87,12 @@ def case_bw(sp):
     else:
         ops.append(dict(name="fh", inputs=[names[i] for i in hsub], outs=[("h", (2,))], deps={(0, i) for i in range(len(hsub))}))
         ops.append(dict(name="fh2", inputs=["h"], outs=[("h2", ())], deps={(0, 0)}))
-    ops.append(dict(name="f1", inputs=[names[i] for i in y1sub], outs=[("y1", (2,))], deps={(0, i) for i in range(len(y1sub))}))
+    # optionally an EMPTY leaf (numel 0, e.g. the bias of Linear(n, 0)) feeds y1: it is a leaf the outputs were computed from like any other
+    empty_leaf = choice(2, "empty_leaf_feeds_y1") == 1
+    y1_in = [names[i] for i in y1sub] + (["e"] if empty_leaf else [])
+    ops.append(dict(name="f1", inputs=y1_in, outs=[("y1", (2,))], deps={(0, i) for i in range(len(y1_in))}))
     ops.append(dict(name="f2", inputs=[names[i] for i in y2sub], outs=[("y2", ())], deps={(0, i) for i in range(len(y2sub))}))
-    spec = dict(leaves=[("a", (2,), rg["a"]), ("b", (), rg["b"]), ("c", (2,), rg["c"])], ops=ops)
+    spec = dict(leaves=[("a", (2,), rg["a"]), ("b", (), rg["b"]), ("c", (2,), rg["c"])] + ([("e", (0,), True)] if empty_leaf else []), ops=ops)
     prog = Prog(spec)
     outs = ["y1", "y2"]
     if not all(prog[n].requires_grad for n in outs):
